@@ -337,6 +337,8 @@ def mir_root(fn, op, limit=24):
     pl = op.get("c", op.get("m")) if isinstance(op, dict) and ("c" in op or "m" in op) else op
     for _ in range(limit):
         if isinstance(pl, dict):
+            if "l" not in pl:
+                return ("place", _json.dumps(pl, sort_keys=True))
             if all(p == "*" for p in pl.get("p", [])):
                 pl = pl["l"]
                 continue
